@@ -117,6 +117,8 @@ class Model:
         self.hybrid = None
         self.generation = 0
         self.rr_moved = None  # (iso name, rr name) once relocation happened
+        self.rr_moved_name = None  # set_relocated_name on the current object
+        self.reloc_name = None  # names of the relocation directory while it exists
         self.n_dup_pvd = 0
 
     def clone(self):
@@ -227,6 +229,17 @@ class Model:
     # ---- edits (only called for operations the library accepted) -----------
     def apply(self, op):
         getattr(self, 'op_' + op['op'])(op)
+        self._update_reloc()
+
+    def _update_reloc(self):
+        """The relocation directory exists exactly while a directory is relocated; it is created
+        under the name configured on the *current object* (set_relocated_name is not stored in the
+        image) and keeps that name for as long as it exists."""
+        if self.relocation_active():
+            if getattr(self, 'reloc_name', None) is None:
+                self.reloc_name = getattr(self, 'rr_moved_name', None) or ('RR_MOVED', 'rr_moved')
+        else:
+            self.reloc_name = None
 
     def _add_file_node(self, ns, path, cid, rr_name=None, mode=None):
         self.ns[ns][path] = Node('file', cid=cid, rr_name=rr_name, mode=mode, born=self.generation)
@@ -395,6 +408,9 @@ class Model:
         """The image was written and parsed again: link information of empty
         files does not survive (documented), everything else does."""
         self.generation += 1
+        # a relocation name configured with set_relocated_name lives in the object, not the image
+        self.rr_moved_name = None
+        self._update_reloc()
         fresh = 0
         udf_groups = {}
         for ns in ('iso', 'joliet', 'udf'):
